@@ -104,7 +104,83 @@ def rename_locals(fn):
     return fn
 
 
-KINDS = {"augassign": AugAssign, "invert": Invert, "flipcmp": FlipCmp, "temp": Temp, "nestif": NestIf}
+class LenCmp(ast.NodeTransformer):
+    """`if len(x):` -> `if len(x) > 0:`;  `if not len(x):` -> `if len(x) == 0:`  (tests of if / while / conditional expressions)"""
+
+    def _fix(self, t):
+        def is_len(e):
+            return isinstance(e, ast.Call) and isinstance(e.func, ast.Name) and e.func.id == "len" and len(e.args) == 1
+        if is_len(t):
+            return ast.Compare(t, [ast.Gt()], [ast.Constant(0)])
+        if isinstance(t, ast.UnaryOp) and isinstance(t.op, ast.Not) and is_len(t.operand):
+            return ast.Compare(t.operand, [ast.Eq()], [ast.Constant(0)])
+        if isinstance(t, ast.BoolOp):
+            t.values = [self._fix(v) for v in t.values]
+        return t
+
+    def visit_If(self, node):
+        self.generic_visit(node)
+        node.test = self._fix(node.test)
+        return node
+
+    def visit_IfExp(self, node):
+        self.generic_visit(node)
+        node.test = self._fix(node.test)
+        return node
+
+
+class CompLoop(ast.NodeTransformer):
+    """`name = [elt for t in it if c]`  ->  `name = []` + explicit loop with append (single generator only)"""
+
+    def visit_Assign(self, node):
+        v = node.value
+        if len(node.targets) == 1 and isinstance(node.targets[0], ast.Name) and isinstance(v, ast.ListComp) and len(v.generators) == 1 and not v.generators[0].is_async:
+            g = v.generators[0]
+            name = node.targets[0].id
+            if any(isinstance(x, ast.Name) and x.id == name for x in ast.walk(v)):
+                return node
+            app = ast.Expr(ast.Call(ast.Attribute(ast.Name(name, ast.Load()), "append", ast.Load()), [v.elt], []))
+            body = [app]
+            for c in reversed(g.ifs):
+                body = [ast.If(c, body, [])]
+            loop = ast.For(g.target, g.iter, body, [], None)
+            return [ast.copy_location(ast.Assign([ast.Name(name, ast.Store())], ast.List([], ast.Load())), node), ast.copy_location(loop, node)]
+        return node
+
+
+class AliasSelf(ast.NodeTransformer):
+    """`self.X` read several times in a method that never stores it  ->  `X_ = self.X` at the top, reads through X_"""
+
+    def visit_FunctionDef(self, node):
+        if not node.args.args or node.args.args[0].arg != "self" or any(isinstance(n, (ast.FunctionDef, ast.Lambda)) for b in node.body for n in ast.walk(b)):
+            return node
+        stored = {n.attr for n in ast.walk(node) if isinstance(n, ast.Attribute) and isinstance(n.ctx, (ast.Store, ast.Del)) and isinstance(n.value, ast.Name) and n.value.id == "self"}
+        called = {n.func.attr for n in ast.walk(node) if isinstance(n, ast.Call) and isinstance(n.func, ast.Attribute) and isinstance(n.func.value, ast.Name) and n.func.value.id == "self"}
+        # in-place mutation through self.X (subscript stores, method calls on it) would still go to the same object, but a
+        # method call on self may REBIND self.X: only attributes of methods that call no self.method() are aliased
+        if called:
+            return node
+        reads = {}
+        for n in ast.walk(node):
+            if isinstance(n, ast.Attribute) and isinstance(n.ctx, ast.Load) and isinstance(n.value, ast.Name) and n.value.id == "self" and n.attr not in stored:
+                reads[n.attr] = reads.get(n.attr, 0) + 1
+        pick = sorted(a for a, k in reads.items() if k >= 2 and a in ("common", "shape", "weights", "validity", "null", "ignore_missing", "dims", "interacting_shape"))
+        if not pick:
+            return node
+
+        class Sub(ast.NodeTransformer):
+            def visit_Attribute(s, n):
+                if isinstance(n.ctx, ast.Load) and isinstance(n.value, ast.Name) and n.value.id == "self" and n.attr in pick:
+                    return ast.copy_location(ast.Name(n.attr + "_", ast.Load()), n)
+                return s.generic_visit(n)
+        body = [Sub().visit(b) for b in node.body]
+        start = 1 if body and isinstance(body[0], ast.Expr) and isinstance(getattr(body[0], "value", None), ast.Constant) else 0
+        pre = [ast.Assign([ast.Name(a + "_", ast.Store())], ast.Attribute(ast.Name("self", ast.Load()), a, ast.Load())) for a in pick]
+        node.body = body[:start] + pre + body[start:]
+        return node
+
+
+KINDS = {"lencmp": LenCmp, "comploop": CompLoop, "aliasself": AliasSelf, "augassign": AugAssign, "invert": Invert, "flipcmp": FlipCmp, "temp": Temp, "nestif": NestIf}
 
 
 def functions(tree):
@@ -156,7 +232,7 @@ def one(args):
 
 def main():
     fname = sys.argv[1]
-    kinds = sys.argv[sys.argv.index("--kinds") + 1].split(",") if "--kinds" in sys.argv else ["unparse", "augassign", "invert", "flipcmp", "rename", "temp", "nestif"]
+    kinds = sys.argv[sys.argv.index("--kinds") + 1].split(",") if "--kinds" in sys.argv else ["unparse", "augassign", "invert", "flipcmp", "rename", "temp", "nestif", "lencmp", "comploop", "aliasself"]
     only = sys.argv[sys.argv.index("--only") + 1] if "--only" in sys.argv else None
     whole = "--whole" in sys.argv
     src = open(os.path.join(MS.REPO, "src", "catii", fname)).read()
